@@ -127,6 +127,39 @@ def threaded_nested_sample(ctx, n):
             ctx.failure("threaded-nested-emit-lost", "nested blocking emit: outer emit %r, inner consumer received %r" % (box, got), case)
 
 
+SOURCE_SIGS = ("poll-before-downstream-done", "take-before-downstream-done")
+
+
+def source_backpressure(ctx, n, cases=None):
+    """(D) sources await the awaitables of their own emission before reading more (sources.py: from_periodic, from_textfile,
+    filenames, from_iterable): the C18 source harness with a consumer that returns a Future the harness resolves later; only the
+    two backpressure statements of its oracle are claimed here."""
+    import os
+    import shutil
+    import tempfile
+    from . import c18
+    if cases is None:
+        cases = [c for c in (dict(c) for c in c18.CORPUS) if c.get("sink") == "future"]
+        k = 0
+        while len(cases) < n and k < 20 * n:
+            k += 1
+            c = c18.gen_case(ctx.rng, c18.KINDS[k % len(c18.KINDS)])
+            if c.get("sink") == "future":
+                cases.append(c)
+    scratch = tempfile.mkdtemp(prefix="verif-c03-", dir=os.environ.get("VERIF_SCRATCH"))
+    try:
+        for c in cases:
+            log = c18.observe(c, scratch)
+            ctx.count("source:" + c["kind"])
+            ctx.case({"source": c}, nontrivial=any(ev["e"] == "emit" for ev in log))
+            bad = c18.oracle(c, log)
+            if bad is not None and bad[0] in SOURCE_SIGS:
+                ctx.failure("source:" + bad[0], "%s: %s" % (c["kind"], bad[1]), {"source": c},
+                            oracle="a source reads on only when every awaitable its emission returned is done")
+    finally:
+        shutil.rmtree(scratch, ignore_errors=True)
+
+
 def run(ctx):
     ctx.audit(extra_modules=lean_extra("C03"))
     n = 150 if not ctx.thorough() else 5000
@@ -136,8 +169,10 @@ def run(ctx):
         m.run(ctx, "C03", 40 if not ctx.thorough() else 1500)
     threaded_sample(ctx, 12 if not ctx.thorough() else 120)
     threaded_nested_sample(ctx, 6 if not ctx.thorough() else 30)
+    source_backpressure(ctx, 60 if not ctx.thorough() else 1500)
     ctx.coverage["rule"] = ("(A) graph-family generator in asynchronous mode with harness-completed consumers of three flavours; (B) asynchronous pipelines as in C02 "
-                            "with awaited and un-awaited producers; (C) 12/120 threaded blocking emits. Non-trivial as in C01/C02.")
+                            "with awaited and un-awaited producers; (C) 12/120 threaded blocking emits; (D) 60/1500 source histories (from_periodic, from_textfile, "
+                            "filenames, from_iterable under start/stop histories) with a consumer whose Future the harness resolves later. Non-trivial as in C01/C02.")
     ctx.assumptions += ["'accepted' = the emit awaitable completed; 'handed on' = the node called _emit; bounds are checked when the node directly follows the entry point",
                         "threaded operation is sampled in real time; OS thread scheduling is not modelled",
                         "a zip producer that is more than maxsize ahead of the other input is legitimately blocked (not a deadlock)"]
@@ -146,7 +181,9 @@ def run(ctx):
 def replay(ctx, data):
     ctx.audit(extra_modules=lean_extra("C03"))
     case = data["case"]
-    if case.get("threaded") and case.get("nested"):
+    if "source" in case:
+        source_backpressure(ctx, 1, [case["source"]])
+    elif case.get("threaded") and case.get("nested"):
         threaded_nested_sample(ctx, 6)
     elif case.get("threaded"):
         threaded_sample(ctx, 12)
